@@ -27,7 +27,7 @@ func zzScaleStub(s termscaler.Scaler, val, min, max int64) float64 {
 // zzBucketStub / zzLengthStub stand for termscaler.Bucket / LengthVal: any
 // index in range (H14Range decides the range for every magnitude in [0,1]).
 func zzBucketStub(buckets int, u float64) int { return zz.IntRange(0, buckets-1) }
-func zzLengthStub(maxLen int, u float64) int { return zz.IntRange(0, maxLen) }
+func zzLengthStub(maxLen int, u float64) int  { return zz.IntRange(0, maxLen) }
 
 // zzScaleKeysStub stands for Scaler.ScaleKeys (legend values): the minimum and one arbitrary value.
 func zzScaleKeysStub(s termscaler.Scaler, buckets, min, max int64) []int64 {
@@ -390,8 +390,10 @@ func H14BarGraph() {
 	bg.SetKeys(zzNames[:nk]...)
 	nrows := 1 + zz.Choice(zzBarRows)
 	nonNeg := true
+	rowsVals := make([][]int64, nrows)
 	for r := 0; r < nrows; r++ {
 		vals := make([]int64, nk)
+		rowsVals[r] = vals
 		var sum int64
 		for i := range vals {
 			vals[i] = zz.Int64()
@@ -407,6 +409,25 @@ func H14BarGraph() {
 			// key column (4 wide: keys here are shorter), two blanks, bar, two blanks, total (one letter)
 			barLen := zzVisible(vt.Get(bg.prefixLines+r)) - 4 - 2 - 2 - 1
 			zz.Assert(barLen >= 0 && barLen <= bg.BarSize, "stacked bar longer than its maximum width")
+			// proportional: every row on screen is drawn against the scale in force at the end
+			// (segment i has floor(v_i * BarSize / max) blocks; negative segments none)
+			want := 0
+			if bg.maxLineVal > 0 {
+				for _, v := range rowsVals[r] {
+					if v <= 0 {
+						continue
+					}
+					if v > bg.maxLineVal {
+						v = bg.maxLineVal
+					}
+					for k := 1; k <= bg.BarSize; k++ {
+						if int64(k)*bg.maxLineVal <= v*int64(bg.BarSize) {
+							want++
+						}
+					}
+				}
+			}
+			zz.Assert(barLen == want, "a stacked bar on screen is not drawn against the current scale (not proportional to its values)")
 		}
 	}
 	zzRestore()
